@@ -9,7 +9,7 @@
   that). A handler slot is an `Option` field of the socket. Open systems with ghost logs
   (`started`, `log`, `parked`): `SimVerif/HandlerSys.lean`.
 
-  Vocabulary: `noInvoke effs` — no `.invoke` in the list; `postsOf effs` — the posted
+  Vocabulary: `noInvoke effs` — no `.invoke` in the list; `h4_postsOf effs` — the posted
   completions in order; `effIds effs` — handler ids of all completions (posted or invoked);
   `udpAbortRecvEffs u`, `udpAbortSendEffs u`, `tcpAbortRecvEffs s`, `tcpAbortSendEffs s`,
   `tcpAbortConnEffs s`, `tcpAbortAcceptEffs s`, `tcpCancelEffs s` — the `operation_aborted`
@@ -117,7 +117,7 @@ theorem C04_never_inline_resolver (p : RParams) (r : R) (now : Int) (addr : Stri
     the third internal callback: C14.) -/
 theorem C04_never_inline (tp : TParams) (n : NetSt) (name : String) :
     (∀ l : ULbl, (∀ ab, l ≠ .sendTimer ab) → noInvoke (l.eff name n).2)
-    ∧ (∀ l : TLbl, (∀ h, l ≠ .refusedFired h) → noInvoke (l.eff tp n).2) := by
+    ∧ (∀ l : h4_HLbl, (∀ h, l ≠ .refusedFired h) → noInvoke (l.eff tp n).2) := by
   constructor
   · intro l hl
     cases l with
@@ -138,33 +138,33 @@ theorem C04_never_inline (tp : TParams) (n : NetSt) (name : String) :
     | sendTimer ab => exact absurd rfl (hl ab)
   · intro l hl
     cases l with
-    | newSock nm node isAcc => simp [TLbl.eff]
+    | newSock nm node isAcc => simp [h4_HLbl.eff]
     | connect now nm target h => exact ni_tcpConnect _ _ _ _ _
     | read nm op => exact ni_tcpAsyncRead _ _ _
     | waitRead nm h => exact ni_tcpWaitRead _ _ _
     | write nm op => exact ni_tcpAsyncWrite _ _ _
     | runWrite nm h? mid r =>
-      simp only [TLbl.eff]
+      simp only [h4_HLbl.eff]
       splits <;> first | simp | exact ni_tcpWriteFinish _ _ _ _
-    | readNb nm caps => simp [TLbl.eff]
+    | readNb nm caps => simp [h4_HLbl.eff]
     | cancel nm => exact ni_tcpCancel _ _
     | close now nm => exact ni_tcpClose _ _ _
     | reopen now nm v4 => exact ni_tcpOpen _ _ _ _
-    | bind nm ep => simp [TLbl.eff]
+    | bind nm ep => simp [h4_HLbl.eff]
     | accept now nm op => exact ni_accAsyncAccept _ _ _ _
-    | listen nm qs => simp [TLbl.eff]
+    | listen nm qs => simp [h4_HLbl.eff]
     | accCancel nm => exact ni_accCancel _ _
     | accClose now nm => exact ni_accClose _ _ _
     | incoming now nm p =>
-      simp only [TLbl.eff]
+      simp only [h4_HLbl.eff]
       splits <;> first | simp | exact ni_accIncoming _ _ _ _ | exact ni_tcpIncoming _ _ _ _ _
-    | dropped nm p => simp [TLbl.eff]
+    | dropped nm p => simp [h4_HLbl.eff]
     | resendOne now nm =>
-      simp only [TLbl.eff]
+      simp only [h4_HLbl.eff]
       split
       · rename_i r hr; exact silent_noInvoke (silent_tcpResendOne _ _ _ r hr)
       · simp
-    | ackPost nm wb acked => simp [TLbl.eff]
+    | ackPost nm wb acked => simp [h4_HLbl.eff]
     | refusedFired h => exact absurd rfl (hl h)
 
 /-- The inline invocations that do exist come from internal timer callbacks, and each takes
@@ -201,16 +201,16 @@ theorem C04_abort_exactly_once_udp_cancel (name : String) (u : UdpSock) :
     (u.cancel name).2
       = udpAbortRecvEffs u ++ (udpAbortSendEffs u ++ [.cancelTimer name 0]) ++ [.cancelTimer name 0]
     ∧ (u.cancel name).1 = { u with recvH := none, waitRecvH := none, waitSendH := none }
-    ∧ (postsOf (u.cancel name).2).map (·.h) = u.slotIds
-    ∧ (∀ c ∈ postsOf (u.cancel name).2, c.ec = .aborted)
+    ∧ (h4_postsOf (u.cancel name).2).map (·.h) = u.slotIds
+    ∧ (∀ c ∈ h4_postsOf (u.cancel name).2, c.ec = .aborted)
     ∧ invokesOf (u.cancel name).2 = [] := by
   rw [udp_cancel_eq]
   refine ⟨rfl, rfl, ?_, ?_, ?_⟩
   · simp only [postsOf_append, List.map_append, (postsOf_udpAbortRecvEffs u).1, (postsOf_udpAbortSendEffs u).1,
-      postsOf, List.append_nil]
+      h4_postsOf, List.append_nil]
     rfl
   · intro c hc
-    simp only [postsOf_append, postsOf, List.append_nil, List.mem_append] at hc
+    simp only [postsOf_append, h4_postsOf, List.append_nil, List.mem_append] at hc
     rcases hc with hc | hc
     · exact (postsOf_udpAbortRecvEffs u).2.1 c hc
     · exact (postsOf_udpAbortSendEffs u).2.1 c hc
@@ -234,9 +234,9 @@ theorem C04_abort_exactly_once_udp_close (n : NetSt) (name : String) (u : UdpSoc
 theorem C04_abort_exactly_once_tcp_cancel (s : TcpSock) :
     s.cancel.2 = tcpAbortRecvEffs s ++ tcpAbortSendEffs s ++ tcpAbortConnEffs s
     ∧ s.cancel.1 = { s with recvH := none, waitRecvH := none, recvNull := false, sendH := none, connectH := none }
-    ∧ (postsOf s.cancel.2).map (·.h)
+    ∧ (h4_postsOf s.cancel.2).map (·.h)
         = (s.recvH.map (·.h)).toList ++ s.waitRecvH.toList ++ (s.sendH.map (·.h)).toList ++ s.connectH.toList
-    ∧ (∀ c ∈ postsOf s.cancel.2, c.ec = .aborted)
+    ∧ (∀ c ∈ h4_postsOf s.cancel.2, c.ec = .aborted)
     ∧ invokesOf s.cancel.2 = [] := by
   rw [tcp_cancel_eq]
   refine ⟨rfl, rfl, ?_, ?_, ?_⟩
@@ -257,7 +257,7 @@ theorem C04_abort_exactly_once_tcp_close (n : NetSt) (now : Int) (name : String)
     (h : n.tcp? name = some s) :
     (n.tcpClose now name).2 = (tcpCloseEof n now name s).2 ++ tcpCancelEffs s
     ∧ silent (tcpCloseEof n now name s).2
-    ∧ postsOf (n.tcpClose now name).2 = postsOf s.cancel.2
+    ∧ h4_postsOf (n.tcpClose now name).2 = h4_postsOf s.cancel.2
     ∧ ∃ s', (n.tcpClose now name).1.tcp? name = some s'
         ∧ s'.recvH = none ∧ s'.waitRecvH = none ∧ s'.sendH = none ∧ s'.connectH = none
         ∧ s'.isOpen = false ∧ s'.fwd = none ∧ s'.chan = none := by
@@ -272,8 +272,8 @@ theorem C04_abort_exactly_once_tcp_close (n : NetSt) (now : Int) (name : String)
 theorem C04_abort_exactly_once_acceptor_cancel (n : NetSt) (name : String) (s : TcpSock) (h : n.tcp? name = some s) :
     s.abortAccept.2 = tcpAbortAcceptEffs s
     ∧ (n.accCancel name).2 = tcpAbortAcceptEffs s
-    ∧ (postsOf (tcpAbortAcceptEffs s)).map (·.h) = (s.acceptOp.map AcceptOp.h).toList
-    ∧ (∀ c ∈ postsOf (tcpAbortAcceptEffs s), c.ec = .aborted)
+    ∧ (h4_postsOf (tcpAbortAcceptEffs s)).map (·.h) = (s.acceptOp.map AcceptOp.h).toList
+    ∧ (∀ c ∈ h4_postsOf (tcpAbortAcceptEffs s), c.ec = .aborted)
     ∧ ∃ s', (n.accCancel name).1.tcp? name = some s' ∧ s'.acceptOp = none ∧ s'.recvH = s.recvH
         ∧ s'.waitRecvH = s.waitRecvH ∧ s'.sendH = s.sendH ∧ s'.connectH = s.connectH := by
   refine ⟨tcp_abortAccept_effs s, ?_, (posts_tcpAbortAcceptEffs s).1, (posts_tcpAbortAcceptEffs s).2.1, ?_⟩
@@ -288,7 +288,7 @@ theorem C04_abort_exactly_once_acceptor_cancel (n : NetSt) (name : String) (s : 
     slot is empty, the acceptor is closed and detached, its connection queue is empty. -/
 theorem C04_abort_exactly_once_acceptor_close (n : NetSt) (now : Int) (name : String) (s : TcpSock) (a : AccState)
     (hs : n.tcp? name = some s) (ha : s.acc = some a) :
-    postsOf (n.accClose now name).2 = postsOf (tcpAbortAcceptEffs s) ++ postsOf (tcpCancelEffs s)
+    h4_postsOf (n.accClose now name).2 = h4_postsOf (tcpAbortAcceptEffs s) ++ h4_postsOf (tcpCancelEffs s)
     ∧ invokesOf (n.accClose now name).2 = []
     ∧ ∃ s', (n.accClose now name).1.tcp? name = some s'
         ∧ s'.acceptOp = none ∧ s'.recvH = none ∧ s'.waitRecvH = none ∧ s'.sendH = none ∧ s'.connectH = none
@@ -337,7 +337,7 @@ theorem C04_supersede_udp_wait_write (n : NetSt) (now : Int) (name : String) (hd
     (h : n.udp? name = some u) :
     ∃ e2 u', (n.udpWaitWrite now name hd).2 = udpAbortSendEffs u ++ [.cancelTimer name 0] ++ e2
       ∧ (n.udpWaitWrite now name hd).1.udp? name = some u' ∧ u'.recvH = u.recvH ∧ u'.waitRecvH = u.waitRecvH
-      ∧ ((u'.waitSendH = some hd ∧ postsOf e2 = []) ∨ (u'.waitSendH = none ∧ e2 = [.post { h := hd, ec := .ok }])) := by
+      ∧ ((u'.waitSendH = some hd ∧ h4_postsOf e2 = []) ∨ (u'.waitSendH = none ∧ e2 = [.post { h := hd, ec := .ok }])) := by
   unfold NetSt.udpWaitWrite
   rw [h]; dsimp only
   rw [udp_abortSend_eq]; dsimp only
@@ -509,7 +509,7 @@ theorem C04_completed_once_accept (n : NetSt) (now : Int) (name : String) (s : T
 theorem C04_none_discarded_udp (name : String) (n0 : NetSt) (hex : (n0.udp? name).isSome) (ls : List ULbl) :
     let s := US.run name { n := n0, started := udpIds n0 name } ls
     (udpIds s.n name ++ s.ids).Perm s.started :=
-  (UInv_run name ls _ ⟨hex, by simp [HS.ids]⟩).perm
+  (UInv_run name ls _ ⟨hex, by simp [HdS.ids]⟩).perm
 
 /-- **One UDP socket, at most once.** With pairwise distinct handler ids (those in the slots at
     the start, those of the initiating calls) no id is completed twice, and an id still in a slot
@@ -525,44 +525,44 @@ theorem C04_at_most_once_udp (name : String) (n0 : NetSt) (hex : (n0.udp? name).
 
 /-- **All TCP sockets and acceptors, none discarded.** From any well-formed table (unique names, no
     socket with both a read and a wait-for-read outstanding), after any sequence of labels
-    satisfying the preconditions `TS.ok` (see SimVerif/HandlerSys.lean): the ids in all slots of
+    satisfying the preconditions `HTS.ok` (see SimVerif/HandlerSys.lean): the ids in all slots of
     all sockets and acceptors, the ids bound into connect timers (refused connects) and the ids of
     all completions produced are exactly the ids given to initiating calls. Includes accepts
     into a peer socket that still has operations outstanding (they are aborted), supersession,
     close, cancel, destruction, packets for closed sockets, the write and retransmission loops. -/
-theorem C04_none_discarded_tcp (tp : TParams) (n0 : NetSt) (hw : TWf n0) (ls : List TLbl)
-    (hok : TS.okRun tp { n := n0, started := allTcpIds n0 } ls) :
-    let s := TS.run tp { n := n0, started := allTcpIds n0 } ls
+theorem C04_none_discarded_tcp (tp : TParams) (n0 : NetSt) (hw : TWf n0) (ls : List h4_HLbl)
+    (hok : HTS.okRun tp { n := n0, started := allTcpIds n0 } ls) :
+    let s := HTS.run tp { n := n0, started := allTcpIds n0 } ls
     (allTcpIds s.n ++ s.parked ++ s.ids).Perm s.started ∧ TWf s.n :=
-  have h := TInv_run tp ls _ ⟨hw, by simp [HS.ids]⟩ hok
+  have h := TInv_run tp ls _ ⟨hw, by simp [HdS.ids]⟩ hok
   ⟨h.perm, h.wf⟩
 
 /-- **All TCP sockets and acceptors, at most once.** With pairwise distinct handler ids nothing is
     completed twice; an id in a slot or bound into a connect timer has not been completed. -/
-theorem C04_at_most_once_tcp (tp : TParams) (n0 : NetSt) (hw : TWf n0) (ls : List TLbl)
-    (hok : TS.okRun tp { n := n0, started := allTcpIds n0 } ls)
-    (hf : (allTcpIds n0 ++ ls.filterMap TLbl.newId?).Nodup) :
-    let s := TS.run tp { n := n0, started := allTcpIds n0 } ls
+theorem C04_at_most_once_tcp (tp : TParams) (n0 : NetSt) (hw : TWf n0) (ls : List h4_HLbl)
+    (hok : HTS.okRun tp { n := n0, started := allTcpIds n0 } ls)
+    (hf : (allTcpIds n0 ++ ls.filterMap h4_HLbl.newId?).Nodup) :
+    let s := HTS.run tp { n := n0, started := allTcpIds n0 } ls
     (allTcpIds s.n ++ s.parked ++ s.ids).Nodup := by
   intro s
   have hp := (C04_none_discarded_tcp tp n0 hw ls hok).1
-  have hs : s.started = allTcpIds n0 ++ ls.filterMap TLbl.newId? := TS_run_started tp ls _
+  have hs : s.started = allTcpIds n0 ++ ls.filterMap h4_HLbl.newId? := TS_run_started tp ls _
   exact (List.Perm.nodup_iff hp).mpr (by rw [hs]; exact hf)
 
 /-- **Acceptors** are objects of the same table: an accept handler sitting in an acceptor's slot has
     not been completed, and is never completed twice (instance of the theorem above). -/
-theorem C04_at_most_once_acceptor (tp : TParams) (n0 : NetSt) (hw : TWf n0) (ls : List TLbl)
-    (hok : TS.okRun tp { n := n0, started := allTcpIds n0 } ls)
-    (hf : (allTcpIds n0 ++ ls.filterMap TLbl.newId?).Nodup) (name : String) (s : TcpSock) (op : AcceptOp)
-    (hs : (TS.run tp { n := n0, started := allTcpIds n0 } ls).n.tcp? name = some s)
+theorem C04_at_most_once_acceptor (tp : TParams) (n0 : NetSt) (hw : TWf n0) (ls : List h4_HLbl)
+    (hok : HTS.okRun tp { n := n0, started := allTcpIds n0 } ls)
+    (hf : (allTcpIds n0 ++ ls.filterMap h4_HLbl.newId?).Nodup) (name : String) (s : TcpSock) (op : AcceptOp)
+    (hs : (HTS.run tp { n := n0, started := allTcpIds n0 } ls).n.tcp? name = some s)
     (hop : s.acceptOp = some op) :
-    op.h ∉ (TS.run tp { n := n0, started := allTcpIds n0 } ls).ids
-    ∧ (TS.run tp { n := n0, started := allTcpIds n0 } ls).ids.Nodup := by
+    op.h ∉ (HTS.run tp { n := n0, started := allTcpIds n0 } ls).ids
+    ∧ (HTS.run tp { n := n0, started := allTcpIds n0 } ls).ids.Nodup := by
   have hn := C04_at_most_once_tcp tp n0 hw ls hok hf
   dsimp only at hn
   rw [List.nodup_append] at hn
   refine ⟨fun hmem => ?_, hn.2.1⟩
-  have hin : op.h ∈ allTcpIds (TS.run tp { n := n0, started := allTcpIds n0 } ls).n := by
+  have hin : op.h ∈ allTcpIds (HTS.run tp { n := n0, started := allTcpIds n0 } ls).n := by
     unfold allTcpIds
     rw [List.mem_flatten]
     refine ⟨s.slotIds, List.mem_map.mpr ⟨(name, s), tcp_lookup_mem hs, rfl⟩, ?_⟩
@@ -611,13 +611,13 @@ def udpAbortSendAsIs (name : String) (u : UdpSock) : List (Option Nat) :=
 
 /-- repaired tree: the handler travels inside the completion -/
 def udpAbortSendFixed (name : String) (u : UdpSock) : List (Option Nat) :=
-  (postsOf (u.abortSend name).2).map (fun c => some c.h)
+  (h4_postsOf (u.abortSend name).2).map (fun c => some c.h)
 
 theorem C04_asis_udp_abort_calls_empty_handler (name : String) (u : UdpSock) (h : Nat) (hh : u.waitSendH = some h) :
     udpAbortSendAsIs name u = [none] ∧ udpAbortSendFixed name u = [some h] := by
   unfold udpAbortSendAsIs udpAbortSendFixed
   rw [udp_abortSend_eq, hh]
-  simp [postsOf, udpAbortSendEffs, hh]
+  simp [h4_postsOf, udpAbortSendEffs, hh]
 
 /-! ## 7. Non-vacuity: concrete histories satisfying the hypotheses -/
 
@@ -668,7 +668,7 @@ def wr (h : Nat) : WriteOp := { h := h, bufs := [[1, 2, 3]], stream := 0, off :=
     completing it, the SYN-ACK completing the connect, a socket-returning accept, a write that
     blocks, is superseded and aborted, a write that completes after one segment, reads aborted by
     cancel, a stale SYN-ACK after cancel, the acceptor closed with its accept outstanding -/
-def tcpHist : List TLbl :=
+def tcpHist : List h4_HLbl :=
   [.accept 0 "a0" (.into 7 "s3" false), .accept 0 "a0" (.into 8 "s3" true), .incoming 5 "a0" syn,
    .incoming 9 "s1" synack, .accept 9 "a0" (.fresh 10 "s4"),
    .write "s1" (wr 11), .runWrite "s1" (some 11) [] (.error .wouldBlock), .write "s1" (wr 12),
@@ -676,14 +676,14 @@ def tcpHist : List TLbl :=
    .read "s1" { h := 13, caps := [8] }, .waitRead "s1" 14, .cancel "s1", .incoming 9 "s1" synack,
    .accClose 20 "a0"]
 
-example : (TS.run {} { n := tcp0, started := allTcpIds tcp0 } tcpHist).log.map (fun x => (x.1, x.2.h, x.2.ec))
+example : (HTS.run {} { n := tcp0, started := allTcpIds tcp0 } tcpHist).log.map (fun x => (x.1, x.2.h, x.2.ec))
     = [(false, 2, .aborted), (false, 7, .aborted), (false, 8, .ok), (false, 1, .ok), (false, 11, .aborted),
        (false, 12, .ok), (false, 13, .aborted), (false, 14, .aborted), (false, 10, .aborted)] := by decide
 
 example : TWfb tcp0 = true := by decide
-example : TS.okRunb {} { n := tcp0, started := allTcpIds tcp0 } tcpHist = true := by decide
-example := C04_at_most_once_tcp {} tcp0 (TWfb_sound (by decide)) tcpHist (TS.okRunb_sound _ _ _ (by decide)) (by decide)
-example := C04_none_discarded_tcp {} tcp0 (TWfb_sound (by decide)) tcpHist (TS.okRunb_sound _ _ _ (by decide))
+example : HTS.okRunb {} { n := tcp0, started := allTcpIds tcp0 } tcpHist = true := by decide
+example := C04_at_most_once_tcp {} tcp0 (TWfb_sound (by decide)) tcpHist (HTS.okRunb_sound _ _ _ (by decide)) (by decide)
+example := C04_none_discarded_tcp {} tcp0 (TWfb_sound (by decide)) tcpHist (HTS.okRunb_sound _ _ _ (by decide))
 
 end C04Ex
 
